@@ -12,6 +12,24 @@ def _mods():
 _FakeConn = None
 
 
+class _Watcher(object):
+    """event watcher; hashes by its id so that the iteration order of the watcher set (and thus a replay) is reproducible"""
+
+    def __init__(self, conn, et, wid, raises):
+        self.conn, self.et, self.wid, self.raises = conn, et, wid, raises
+
+    def __hash__(self):
+        return self.wid
+
+    def __eq__(self, other):
+        return self is other
+
+    def __call__(self, args):
+        self.conn.events.append(('W', self.et, self.wid, repr(sorted(args.items()))))
+        if self.raises:
+            raise RuntimeError('watcher %d fails' % self.wid)
+
+
 def fake_conn_class():
     global _FakeConn
     if _FakeConn is not None:
@@ -22,15 +40,16 @@ def fake_conn_class():
         """Connection without a socket.  Only close/push are replaced (they touch the socket); process_msg and defunct are
         wrapped to RECORD and then run the real code."""
 
-        def __init__(self, protocol_version=4):
-            C.Connection.__init__(self, '127.0.0.1', protocol_version=protocol_version)
+        def __init__(self, protocol_version=4, **kw):
+            C.Connection.__init__(self, '127.0.0.1', protocol_version=protocol_version, **kw)
+            self.pushed = []
             self.events = []      # ('M', hdr, body) | ('H', id, hdr, body) | ('P', hdr, body) | ('W', type, args) | ('D', code, text)
 
         def close(self):
             self.is_closed = True
 
         def push(self, data):
-            pass
+            self.pushed.append(bytes(data))
 
         def process_msg(self, header, body):
             self.events.append(('M', (header.version, header.flags, header.stream, header.opcode, header.end_pos - header.body_offset), bytes(body)))
@@ -53,9 +72,18 @@ def fake_conn_class():
                     self.events.append(('E', _id, type(resp).__name__))
             self._requests[stream_id] = (cb, decoder, None)
 
-        def watch(self):
+        def watch(self, spec=None):
+            """spec: {event_type: [raises, ...]} -- one watcher per flag; a watcher records ('W', type, wid, args) and then
+            raises if its flag is set.  Default: one well-behaved watcher per event type."""
+            self.watcher_order = {}
+            wid = 0
             for et in ('TOPOLOGY_CHANGE', 'STATUS_CHANGE', 'SCHEMA_CHANGE'):
-                self._push_watchers[et].add(lambda args, _et=et: self.events.append(('W', _et, repr(sorted(args.items())))))
+                flags = (spec or {}).get(et, [False])
+                for raises in flags:
+                    wid += 1
+                    self._push_watchers[et].add(_Watcher(self, et, wid, raises))
+                # the order in which handle_pushed will iterate over this set object
+                self.watcher_order[et] = [(c.wid, c.raises) for c in self._push_watchers[et]]
 
         def feed(self, chunk):
             """what every reactor's handle_read does with the bytes of one recv()"""
@@ -209,7 +237,7 @@ def routed(evs):
             if hs:
                 out.append(('H', hs[0][1], hs[0][2], hs[0][3], len(hs)))
             elif ps:
-                out.append(('W', ps[0][1], ps[0][2], len(ws)))
+                out.append(('W', ps[0][1], ps[0][2], [w[2] for w in ws]))
             else:
                 out.append(('X', e[1]))
             i = j
@@ -312,3 +340,90 @@ def run_segments(chunks, compressed, reqs=(), pv=5):
         else:
             fin = (c._io_buffer.io_buffer.getvalue(), c._io_buffer.cql_frame_buffer.getvalue())
         return list(c.events), obs, fin
+
+
+# ---------------------------------------------------------------- the real v5 handshake up to the framing switch (C06)
+class ToyLz4(object):
+    """what the `try: import lz4` block of connection.py does when lz4 is installed, with the toy pair"""
+
+    def __enter__(self):
+        C, S = _mods()
+        self.C = C
+        self.old = (dict(C.locally_supported_compressions), C.segment_codec_lz4)
+        C.locally_supported_compressions['lz4'] = (toy_compress, toy_decompress)
+        C.segment_codec_lz4 = S.SegmentCodec(toy_compress, toy_decompress)
+        return self
+
+    def __exit__(self, *a):
+        self.C.locally_supported_compressions.clear()
+        self.C.locally_supported_compressions.update(self.old[0])
+        self.C.segment_codec_lz4 = self.old[1]
+
+
+def bare(ver, stream, opcode, body=b''):
+    return struct.pack('>BBhBi', 0x80 | ver, 0, stream, opcode, len(body)) + body
+
+
+def switch_obs(c):
+    on = 1 if c._is_checksumming_enabled else 0
+    return (on, 1 if (on and c._segment_codec.compression) else 0, 1 if c.compressor else 0)
+
+
+def handshake(c, auth, offer_lz4):
+    """OPTIONS/SUPPORTED, STARTUP and the server's answer (READY or AUTHENTICATE) as bare frames through the real
+    process_io_buffer and the real handlers.  -> (negotiated as the PEER sees it in STARTUP, stream id of the pending
+    AUTH_RESPONSE or None, observation after the answer)"""
+    from cassandra.protocol import write_stringmultimap, write_string
+    pv = c.protocol_version
+    c._send_options_message()
+    rid = list(c._requests)[0]
+    b = io.BytesIO()
+    write_stringmultimap(b, {'CQL_VERSION': ['3.4.5'], 'COMPRESSION': ['snappy', 'lz4'] if offer_lz4 else ['snappy']})
+    n0 = len(c.pushed)
+    c.feed(bare(pv, rid, 0x06, b.getvalue()))
+    startup = c.pushed[n0]                     # bare STARTUP frame as the peer receives it
+    negotiated = b'COMPRESSION' in startup and b'lz4' in startup
+    rid = list(c._requests)[0]
+    if auth:
+        b = io.BytesIO()
+        write_string(b, 'org.apache.cassandra.auth.PasswordAuthenticator')
+        c.feed(bare(pv, rid, 0x03, b.getvalue()))
+        pend = list(c._requests)
+        return negotiated, (pend[0] if pend else None), switch_obs(c)
+    c.feed(bare(pv, rid, 0x02))
+    return negotiated, None, switch_obs(c)
+
+
+def run_handshake_segments(pv, auth, compression, offer_lz4, make_chunks):
+    """Real handshake, then (v5) the peer's segments: make_chunks(negotiated, auth_rid) -> (frames, chunks) built by the caller
+    with the codec the PEER uses.  -> dict with everything observed"""
+    Conn = fake_conn_class()
+    holder = [None]
+    with ToyLz4(), PushRecorder(holder):
+        kw = {'compression': compression}
+        if auth:
+            from cassandra.auth import PlainTextAuthProvider
+            kw['authenticator'] = PlainTextAuthProvider('user', 'secret').new_authenticator('127.0.0.1')
+        c = Conn(protocol_version=pv, **kw)
+        holder[0] = c
+        c.watch()
+        negotiated, auth_rid, obs1 = handshake(c, auth, offer_lz4)
+        out = {'negotiated': negotiated, 'after_reply': obs1, 'auth_rid': auth_rid, 'defunct_in_handshake': c.is_defunct}
+        if c.is_defunct or (auth and auth_rid is None):
+            out.update(after_success=obs1, events=[e for e in c.events if e[0] == 'D'], obs=[], fin=(b'', b''), frames=[], chunks=[])
+            return out
+        n0 = len(c.events)
+        frames, chunks = make_chunks(negotiated, auth_rid)
+        obs = []
+        for ch in chunks:
+            if not c.is_defunct:
+                c.feed(ch)
+            n = len(ievents(c.events[n0:]))
+            if c.is_defunct:
+                obs.append((n, -1, -1))
+            else:
+                obs.append((n, len(c._io_buffer.io_buffer.getvalue()), len(c._io_buffer.cql_frame_buffer.getvalue())))
+        fin = (b'', b'') if c.is_defunct else (c._io_buffer.io_buffer.getvalue(), c._io_buffer.cql_frame_buffer.getvalue())
+        out.update(after_success=switch_obs(c), events=list(c.events[n0:]), obs=obs, fin=fin, frames=frames, chunks=chunks,
+                   ready=c.connected_event.is_set())
+        return out
